@@ -37,7 +37,8 @@ META = dict(
          "that name and validation continues from the logged state; a short position ends the trace.",
     design_ref="4/C04")
 
-BASE = dict(syms=["A"], qtys=[1, 2], prices=[8, 12], fee=(1, 16), start=30, maxact=3, dups=False, coc=False)
+# start = 32: a buy can spend exactly everything (8 + 24, 16 + 16, 8 + 8 + 16) - the boundary of the rejection rule
+BASE = dict(syms=["A"], qtys=[1, 2], prices=[8, 12], fee=(1, 16), start=32, maxact=3, dups=False, coc=False)
 
 
 def m_instances(ctx):
@@ -140,6 +141,12 @@ def run(ctx):
     tid += len(ttr)
     traces += ttr
     ctx.log("T: %d random histories, %d events" % (len(ttr), sum(len(t["ev"]) for t in ttr)))
+    # ---------------------------------------------------------------- V: real backtests (real Strategy, both simulators)
+    from ..drivers import acct_vivo
+    vtr = acct_vivo.run_many(acct_vivo.specs(KIND, ctx.pick(6, 120), ctx.seed, first_id=tid + 1))
+    tid += len(vtr)
+    traces += vtr
+    ctx.log("V: %d backtests, %d order events" % (len(vtr), sum(len(t["ev"]) for t in vtr)))
     verdicts, results, _ = acct.validate(KIND, traces, ctx.scratch, parts_total=ctx.pick(10, 14), proj="acct")
     bad, named = acct.report(ctx, PID, KIND, traces, verdicts, "acct", "CEX/R/T", hist_of=lambda t: hists.get(t["id"]))
     for i, label in cex_seen.items():
@@ -176,12 +183,15 @@ def run(ctx):
     ctx.coverage.update({
         "traces_validated_against_impl": len(traces) + len(dtr), "counterexamples_replayed": n_cex,
         "transitions_replayed": n_r, "random_histories": len(ttr), "decimal_histories": len(dtr),
+        "in_vivo_backtests": len(vtr), "in_vivo_order_events": sum(len(t["ev"]) for t in vtr),
         "trace_events_checked_by_tlc": sum(len(t["ev"]) for t in traces) + sum(len(t["ev"]) for t in dtr),
         "rejected_traces": bad + dbad, "named_quirk_deviations": named,
         "fill_effects_and_special_cases_seen": kinds, "samples": samples,
         "rule": "CEX: shortest counter-example of each as-is configuration. R: one trace per transition of the small "
                 "intended Spot.tla instances (shortest witness, last operation judged from the logged pre-state). T: "
-                "random histories of 30-60 operations judged from the initial state (exact and decimal lattice). A case "
+                "random histories of 30-60 operations judged from the initial state (exact and decimal lattice). V: real "
+                "research.backtest runs (spot policy strategies, both simulators), every order call judged from the state "
+                "observed before it. A case "
                 "counts when it contains >= 1 fill and >= 1 of {cancel, reduce/close, rejection}; distinct by (fee, "
                 "cancel-on-close, full operation list with values) / (fee, seed) for decimal histories.",
     })
@@ -196,8 +206,12 @@ def replay(ctx, rp):
         print("replay verdict:", verd[tr["id"]])
         acct_dec.report(ctx, PID, [tr], verd)
         return
-    tr = acct.run_history(KIND, p["hdr"], p["ops"])
-    tr["id"] = 1
+    if p.get("vivo"):
+        from ..drivers import acct_vivo
+        tr = acct_vivo.run_one(tuple([1] + list(p["vivo"])))
+    else:
+        tr = acct.run_history(KIND, p["hdr"], p["ops"])
+        tr["id"] = 1
     verdicts, _, _ = acct.validate(KIND, [tr], ctx.scratch, parts_total=1, proj=p.get("proj", "acct"))
     print("replay verdict:", verdicts[1])
     acct.report(ctx, PID, KIND, [tr], verdicts, p.get("proj", "acct"), "replay")
